@@ -1,6 +1,12 @@
 """C13 — diffs can be reversed and composed (src/diff.c: lyd_diff_reverse_all, lyd_diff_merge_all).
 
-(P) Props/C13.lean, Props/C13Merge.lean (23 theorems): reverse_apply_partial (unbounded: exact diffs of good trees — leaves,
+(P) Props/C13Tree.lean: merge_apply_partial_tree — apply(merge(diff(A,B), diff(B,C)), A) = C for ALL well-formed trees of the
+      fragment (keyed system-ordered lists, leaf-lists, containers, choices, any depth) with LYD_DIFF_DEFAULTS, both settings of
+      LYD_DIFF_MERGE_DEFAULTS (repaired F18(b)), under the decidable side condition mergeSafe (all cells of the merge table, inherited
+      operations included; excluded: a default-flagged second value in the cell none + replace, malformed key copies);
+      apply_exact_obs_keyed (forward specification of apply on exact diffs).  Props/C13RevUO.lean: the list core of the repaired
+      reversal of user-ordered lists (F15).
+    Props/C13.lean, Props/C13Merge.lean: reverse_apply_partial (unbounded: exact diffs of good trees — leaves,
       containers, choices, system-ordered lists / leaf-lists at any depth — reversed and applied give the tree back, default
       flags included), reverse_involutive, the witnesses of F15 / F18, the 4 x 4 merge table against the source
       (Generated/Diff13.lean, tools/extractors/diff13.py) and, for leaves, cell by cell against the composition of the two
@@ -20,18 +26,20 @@
       `data` stays at the first sibling after apply; plus (`lawr`, `lawm`): inputs unchanged, reverse(reverse(d)) = d and takes
       A to B, merge empty <=> diff(A,C) empty, the returned pointer is the first sibling.
 Generators: random S1 schemas (treegen; a batch without any user-ordered / state node = the fragment of the theorems),
-B = random edit of A, C = random edit of B / C = A / C = edit of A / independent / minimal; corpus/diff13 (witnesses of all
+B = random edit of A, C = random edit of B / C = A / C = edit of A / independent / minimal; a directed family `nested-twice`
+(the same container / list instances changed inside by both diffs); for every triple of the fragment the hypotheses of
+merge_apply_partial_tree are evaluated by the model (op `hyp3`) and counted by shape; corpus/diff13 (witnesses of all
 findings); exhaustive: all pairs of duplicate-free user-ordered sequences over <= 4 keys (reverse), all triples over 9 tiny
 per-node state spaces under the 4 option settings (merge).
 Known findings: F15 (reverse of user-ordered changes), F18 (merge without LYD_DIFF_DEFAULTS / with LYD_DIFF_MERGE_DEFAULTS),
 F173 (NULL passed to strcmp in lyd_diff_is_redundant), F174 (stale `data` after apply), F154 (leak in apply; found by component
 life as well and repaired at HEAD) — recognised by their specific signatures; everything else that breaks a law is a violation.
 """
-import itertools, json, os
+import itertools, json, os, re
 from vlib import treegen as tg, paths
 from checks import c06
 
-LEAN_TARGETS = ["LyModel.Props.C13", "LyModel.Props.C13Merge"]
+LEAN_TARGETS = ["LyModel.Props.C13", "LyModel.Props.C13Merge", "LyModel.Props.C13Tree", "LyModel.Props.C13RevUO"]
 AUDIT = "Audit/C13.lean"
 GENERATED = ["Diff13"]
 HARNESS = "api_diff13"
@@ -54,6 +62,10 @@ ASSUMPTIONS = [
     "fragment is evaluated on every generated pair whose trees are good (op `exact`), not proved",
     "user-ordered lists/leaf-lists are outside the merge law (lyd_diff_is_redundant documents the merge of moves as lossy): "
     "their merge is compared with the model but a failing apply/compare is not a violation",
+    "merge_apply_partial_tree is proved for wfForest trees with canonical key / leaf-list values over a schemaOK schema under "
+    "mergeSafe(diff(A,B), diff(B,C)); these four decidable hypotheses are evaluated by the model (op hyp3) on every generated triple "
+    "whose schema has no user-ordered / duplicate-instance node, and where they hold the verdict `same` is required of the model's "
+    "and of libyang's merge3 reply (LYD_DIFF_DEFAULTS; with LYD_DIFF_MERGE_DEFAULTS when the source has the repaired F18(b) condition)",
 ]
 TRUSTED = ["tools/vlib/treegen.py (schema/instance generator, YANG renderer)", "harness/treeproto.h (tree loader and canonical dump)"]
 
@@ -250,6 +262,15 @@ def c06_through(s, T, W, D, verdict, o, feat0):
     return c06.classify("diff", "", case)
 
 
+def merge_dflt_repaired():
+    """Generated/Diff13.lean mergeDfltNeedsDeletedDflt (written by tools/extractors/diff13.py from the source on this run)"""
+    try:
+        t = open(os.path.join(paths.LEAN, "LyModel", "Generated", "Diff13.lean")).read()
+        return "mergeDfltNeedsDeletedDflt : Bool := true" in t
+    except Exception:
+        return False
+
+
 def in_fragment(feat):
     return c06.in_fragment(feat)
 
@@ -391,6 +412,46 @@ def gen_triples(cx, s, rng, n):
     return out
 
 
+def deep_touch(g, forest, p):
+    """an edit that keeps every container / list instance and changes, INSIDE them at any depth, leaves and leaf-lists with
+    probability p (value, default-ness, create / delete of leaves and leaf-list instances)"""
+    def level(skids, insts):
+        out = []
+        for sn in skids:
+            if not sn.is_data():
+                out += [n for n in insts if g.under(n.sn, sn)]          # a choice: its case is kept as it is
+                continue
+            mine = [n for n in insts if n.sn is sn]
+            if sn.kind == "container":
+                for n in mine:
+                    n.kids = level(sn.kids, n.kids)
+                out += mine
+            elif sn.kind == "list":
+                nk = len(sn.keys)
+                for n in mine:
+                    n.kids = n.kids[:nk] + level(sn.kids[nk:], n.kids[nk:])
+                out += mine
+            elif g.rng.random() < p:
+                out += g.mutate(sn, mine, 1.0)
+            else:
+                out += mine
+        return out
+    return tg.canon(level(g.s.top, [n.clone() for n in forest]))
+
+
+def gen_nested_twice(cx, s, rng, n):
+    """directed family for merge_apply_partial_tree (Props/C13Tree.lean): the SAME container / list instances are changed inside
+    by both diffs (leaf cells below `none` + `none` inner nodes, at any depth) — rare among the random chains"""
+    g = tg.TreeGen(rng, s, density=0.9, max_inst=rng.choice([3, 4]))
+    out = []
+    for _ in range(n):
+        A = g.tree()
+        B = deep_touch(g, A, rng.choice([0.4, 0.7]))
+        C = deep_touch(g, B, rng.choice([0.4, 0.7]))
+        out.append(Case(s, A, B, C, "nested-twice"))
+    return out
+
+
 def build_trees(cx, schemas, cases):
     lines, want = [], []
     for k, c in enumerate(cases):
@@ -451,7 +512,8 @@ def nontriv(line, reply):
     return not (reply[0] == "ok" and len(reply) > 1 and reply[1] == "-")
 
 
-def process(cx, schemas, cases, tag, reverse=True, merge=True, laws_every=4, merge_opts=((0, 0), (1, 0), (0, 1), (1, 1))):
+def process(cx, schemas, cases, tag, reverse=True, merge=True, laws_every=4, merge_opts=((0, 0), (1, 0), (0, 1), (1, 1)),
+            on_reverse=None):
     cases = build_trees(cx, schemas, cases)
     fx = fx_token(cx)
     # ---- 1. the diffs (correspondence shared with C06; gives the features for the fragment and the classification)
@@ -531,11 +593,63 @@ def process(cx, schemas, cases, tag, reverse=True, merge=True, laws_every=4, mer
     ri = run_impl(cx, schemas, lines)
     rm = run_model(cx, schemas, mlines)
     compare(cx, lines, ri, rm, kind_of, nontriv)
+    # ---- 2b. the hypotheses of merge_apply_partial_tree (Props/C13Tree.lean), evaluated by the model on every triple of the
+    # fragment; where they hold the theorem says that the model's merge3 succeeds with the verdict "same" (LYD_DIFF_DEFAULTS;
+    # with LYD_DIFF_MERGE_DEFAULTS given the repaired F18(b)) — and the correspondence above carries that over to libyang
+    if merge:
+        hl, hidx = [], {}
+        for k, c in enumerate(cases):
+            if c.c is None or 1 not in c.D1 or 1 not in c.D2 or 1 in c.gap:
+                continue
+            if any(n.is_userord() or n.dup_inst() for n in c.s.nodes):
+                cx.dist["hyp3: schema has user-ordered / duplicate-instance nodes (outside merge_apply_partial_tree)"] += 1
+                continue
+            i = "h%s%d" % (tag, k)
+            hl.append("%s %s hyp3 %s %s %s %s %s" % (i, COMP, tg.hx(c.s.dsl()), c.a, c.b, c.c, fx))
+            hidx[i] = (k, c)
+        hm = run_model(cx, schemas, hl)
+        f18b_fixed = cx.findings.get("F18", {}).get("status") == "fixed" or merge_dflt_repaired()
+        for l in hl:
+            i = l.split()[0]
+            k, c = hidx[i]
+            r = hm.get(i, ["err", "NoReply"])
+            if r[0] != "ok" or len(r) != 5:
+                cx.disagree(COMP, l, ["ok", "?", "?", "?", "?"], r)
+                continue
+            holds = r[1:5] == ["1", "1", "1", "1"]
+            feat = merge_features(c.s, tg.untok(c.s, c.a), tg.untok(c.s, c.b), tg.untok(c.s, c.c), c.D1[1], c.D2[1], None, None, 1, 0)
+            cells = sorted(x for x in feat if x.startswith("cell:"))
+            leafcell = any(x.split(":")[2] in ("leaf", "leaflist") for x in cells)
+            inlist = any(x == "cell:none+none:list" for x in cells)
+            shape = ("meets:" + ("none" if not cells else ("leaf-cells-inside-list-instances" if (leafcell and inlist) else
+                     ("leaf-cells" if leafcell else "inner-only")))) if holds else \
+                ("not-mergeSafe" if r[1:4] == ["1", "1", "1"] else "hyps:" + "".join(r[1:5]))
+            cx.dist["hyp3(merge_apply_partial_tree): " + ("HOLDS " if holds else "") + shape] += 1
+            cx.count(" ".join(l.split()[2:]), holds and bool(cells), "hyp3:" + shape)
+            if not holds:
+                if r[1:4] != ["1", "1", "1"]:
+                    # schemaOK / wfForest / canonT must hold for every generated triple of the fragment
+                    cx.disagree(COMP, l, ["ok", "1", "1", "1", r[4]], r)
+                continue
+            for mo in (0, 1):
+                if mo and not f18b_fixed:
+                    continue
+                j = "m%s%d.%d%d" % (tag, k, 1, mo)
+                for who, rep in (("model", rm), ("impl", ri)):
+                    a = rep.get(j)
+                    if a is None or a[:2] in (["err", "Crash"], ["err", "Timeout"], ["err", "NoReply"]):
+                        continue
+                    if not (a[0] == "ok" and a[-1] in ("same",)):
+                        # contradicts the proved theorem (model) / the theorem + correspondence (implementation)
+                        cx.disagree(COMP, "theorem merge_apply_partial_tree applies (hyp3 holds) but %s merge3 says otherwise: %s" % (who, l),
+                                    ["ok", "...", "same"], a[:1] + a[-2:])
     # ---- 3. the laws, on the implementation's own answers
     for i, (c, o, mo) in idx.items():
         r = ri.get(i, ["err", "NoReply"])
         if mo is None:
             eval_reverse(cx, c, o, r, i, rm.get(i))
+            if on_reverse is not None:
+                on_reverse(c, o, r)
         else:
             eval_merge(cx, c, o, mo, r, i)
     # ---- 4. more laws (impl only) on a subset
@@ -720,6 +834,8 @@ def run(cx):
         cases = []
         for i, s in enumerate(schemas[lo:lo + chunk]):
             cases += gen_triples(cx, s, cx.sub_rng("triples%d" % (lo + i)), per)
+            if not any(n.is_userord() or n.dup_inst() for n in s.nodes) and any(n.kind == "list" for n in s.nodes):
+                cases += gen_nested_twice(cx, s, cx.sub_rng("nested%d" % (lo + i)), cx.n(10, 60))
         process(cx, schemas[lo:lo + chunk], cases, tag="rand%d" % lo)
     exhaustive_reverse(cx)
     exhaustive_merge(cx)
@@ -792,21 +908,110 @@ def tiny_spaces():
     return out
 
 
+def reverse_repaired_in_source():
+    """the switch the extractor read off src/diff.c for this run (Generated/Diff13.lean)"""
+    try:
+        t = open(os.path.join(paths.LEAN, "LyModel", "Generated", "Diff13.lean")).read()
+    except OSError:
+        return False
+    return "def reverseUserordRepaired : Bool := true" in t
+
+
+def uo_ops(forest, name="ul"):
+    """the create / delete / move nodes of the user-ordered (leaf-)list `name` in a diff, in sibling order:
+    (op, identity, anchor, original anchor) with op in d c m, '-' = first place, '?' = metadata missing"""
+    def ident(n):
+        return str(int(n.val) if n.sn.kind == "leaflist" else int(n.kids[0].val))
+
+    def anc(n, mname):
+        v = meta(n, mname)
+        if v is None:
+            return "?"
+        if v == b"":
+            return "-"
+        if n.sn.kind == "leaflist":
+            return str(int(v))
+        m = re.match(rb"^\[k='(\d+)'\]$", v)
+        return str(int(m.group(1))) if m else "!" + v.decode("latin-1")
+    out = []
+    for n, op, own, par in walk_eff(forest):
+        if n.sn.is_userord() and n.sn.name == name and own in ("create", "delete", "replace"):
+            out.append(({"delete": "d", "create": "c", "replace": "m"}[own], ident(n), anc(n, anchor_name(n.sn)),
+                        anc(n, "orig-" + anchor_name(n.sn))))
+    return out
+
+
+def core_ops(t):
+    """reply field of the driver op `uocore` (d<k>@<orig>  c<k>@<anchor>  m<k>@<anchor>@<orig>, ';' between, '-' = none) as tuples"""
+    out = []
+    for x in ([] if t == "-" else t.split(";")):
+        f = x[1:].split("@")
+        out.append({"d": lambda: ("d", f[0], "?", f[1]), "c": lambda: ("c", f[0], f[1], "?"), "m": lambda: ("m", f[0], f[1], f[2])}[x[0]]())
+    return out
+
+
+def pinned_reversal(fwd):
+    """what lyd_diff_reverse_all WITHOUT the repair of F15 makes of the operations `fwd`: same order, create <-> delete with the
+    metadata left as it is (a created node carries orig-*, a deleted one the anchor), the anchors of a move switched"""
+    return [{"d": ("c", k, "?", o), "c": ("d", k, a, "?"), "m": ("m", k, o, a)}[op] for op, k, a, o in fwd]
+
+
+def core_tie(cx, kind, pairs, seen):
+    """The list core of the theorems (Diff/UserOrd*.lean: UO.diffU' with original anchors, UO.reverseU) against libyang's diff nodes:
+    for every exhaustive pair the operations of lyd_diff_siblings on the list `ul` are UO.diffU' (always), and those of
+    lyd_diff_reverse_all are UO.reverseU of them when the repair of F15 is in the source, the pinned shape otherwise."""
+    keys = sorted(set(pairs.values()))
+    tok = lambda q: ".".join(str(k) for k in q) or "-"
+    lines = ["u%s%d diff13 uocore %s %s" % (kind, i, tok(x), tok(y)) for i, (x, y) in enumerate(keys)]
+    rm = cx.run_model(lines)
+    core = {}
+    for l, xy in zip(lines, keys):
+        r = rm.get(l.split()[0], ["err", "NoReply"])
+        if r[0] != "ok" or len(r) != 3:
+            cx.disagree(COMP, l, ["ok", "?", "?"], r)
+            continue
+        core[xy] = (core_ops(r[1]), core_ops(r[2]))
+    repaired = reverse_repaired_in_source()
+    for c, o, r in seen:
+        xy = pairs.get(id(c))
+        if xy not in core or o not in c.D1:
+            continue
+        fwd, rev = core[xy]
+        where = "uocore %s %s %s opts=%d nested=%d" % (kind, tok(xy[0]), tok(xy[1]), o, int(bool(c.A and c.A[0].sn.kind == "container")))
+        got = uo_ops(c.D1[o])
+        cx.count((where, "fwd"), False, "uocore:forward")        # derived from requests already counted
+        if got != fwd:
+            cx.disagree(COMP, where + " [forward diff]", ["ok", repr(got)], ["ok", repr(fwd)])
+        if r[0] != "ok":
+            continue
+        got = uo_ops(tg.untok(c.s, r[1]))
+        want = rev if repaired else pinned_reversal(fwd)
+        cx.count((where, "rev"), False, "uocore:reversed(%s)" % ("repaired" if repaired else "pinned"))
+        if got != want:
+            cx.disagree(COMP, where + " [reversed diff, %s source]" % ("repaired" if repaired else "pinned"),
+                        ["ok", repr(got)], ["ok", repr(want)])
+
+
 def exhaustive_reverse(cx):
     """all ordered pairs of duplicate-free user-ordered sequences over <= n keys (inside a container; top level for a sample)"""
     plan = [("list", cx.n(4, 4)), ("leaflist", cx.n(4, 4)), ("keyless", cx.n(3, 4)), ("statell", cx.n(3, 4)), ("statelist", cx.n(3, 3))]
     total = 0
     for kind, nk in plan:
         s, seqs, tree = c06.userord_cases(cx, kind, nk)
-        cases = []
+        cases, pairs, seen = [], {}, []
         for nested in (True, False):
             for ia, x in enumerate(seqs):
                 for ib, y in enumerate(seqs):
                     if nested or (ia * 7 + ib) % 11 == 0:
                         cases.append(Case(s, tree(x, nested), tree(y, nested), None, "userord-" + kind))
+                        pairs[id(cases[-1])] = (tuple(x), tuple(y))
         total += len(cases)
         before = cx.dist["law:reverse:fails"], cx.dist["law:reverse:holds"]
-        process(cx, [s], cases, tag="x" + kind, merge=False, laws_every=cx.n(9, 3))
+        process(cx, [s], cases, tag="x" + kind, merge=False, laws_every=cx.n(9, 3),
+                on_reverse=(lambda c, o, r: seen.append((c, o, r))) if kind in ("list", "leaflist") else None)
+        if kind in ("list", "leaflist"):
+            # the identity-addressed kinds: the list core of userord_apply_diff / userord_reverse_apply against libyang's diff nodes
+            core_tie(cx, kind, pairs, seen)
         cx.notes.append("exhaustive (reverse) %s <= %d keys: %d of %d (pair, option) evaluations fail" % (
             kind, nk, cx.dist["law:reverse:fails"] - before[0],
             cx.dist["law:reverse:fails"] - before[0] + cx.dist["law:reverse:holds"] - before[1]))
